@@ -704,6 +704,8 @@ def analyse_state():
     rows = []
     for m in sorted(w.mods.values(), key=lambda x: x.rel):
         for clsq, cdef in sorted(m.classes.items()):
+            if not any(isinstance(n, ast.Call) and id(n) in w.draw_nodes for n in ast.walk(cdef)):
+                continue  # no (possibly) drawing call anywhere in the class: no secret slot
             methods = {st.name + ("#set" if MethodInfo(st).kind == "setter" else ""): MethodInfo(st)
                        for st in cdef.body if isinstance(st, (ast.FunctionDef, ast.AsyncFunctionDef))}
             # 1. slots: self.A assigned from a (possibly) drawn value
